@@ -110,8 +110,9 @@ def generate(rng, tier):
                 break
             if 'I' not in case.need or not well_conditioned(modname, case):
                 continue
-            line = case.lines[0]
-            if line.startswith('svg.write'):
+            # flatten cases carry a bookkeeping line first: take the plain flatten line (compared geometrically: a near-duplicate vertex may come and go)
+            line = next((l for l in case.lines if l.startswith('path.flatten ')), case.lines[0])
+            if line.startswith('svg.write') or line.startswith('path.flatten_meta'):
                 continue
             k += 1
             yield both(line, 'flat' if line.startswith('path.flatten ') else 'num', modname)
